@@ -25,10 +25,10 @@ fn fsc_body<const N: usize>() {
         }
         _ => panic!("start code presence differs from reference"),
     }
-    kani::cover!(matches!(got, Some((_, 4))), "4-byte code found");
-    kani::cover!(matches!(got, Some((_, 3))), "3-byte code found");
-    kani::cover!(got.is_none() && len >= 3, "no code in >=3 bytes");
-    kani::cover!(matches!(got, Some((p, _)) if p > from), "code found past from");
+    crate::vcover!(matches!(got, Some((_, 4))), "4-byte code found");
+    crate::vcover!(matches!(got, Some((_, 3))), "3-byte code found");
+    crate::vcover!(got.is_none() && len >= 3, "no code in >=3 bytes");
+    crate::vcover!(matches!(got, Some((p, _)) if p > from), "code found past from");
 }
 
 //@ prop=C14 tier=quick fns="codec::common::find_start_code" bound="all byte strings of length 0..=6, any from: usize" unwind=9
@@ -72,9 +72,9 @@ fn iter_body<const L: usize, const CALLS: usize>() {
         }
         k += 1;
     }
-    kani::cover!(n >= 2, "two or more units");
-    kani::cover!(n >= 1 && units[0].0 == units[0].1, "empty unit (adjacent codes)");
-    kani::cover!(n == 0 && L >= 3, "no unit");
+    crate::vcover!(n >= 2, "two or more units");
+    crate::vcover!(n >= 1 && units[0].0 == units[0].1, "empty unit (adjacent codes)");
+    crate::vcover!(n == 0 && L >= 3, "no unit");
 }
 
 macro_rules! iter_h {
@@ -145,11 +145,11 @@ fn conv_body<const L: usize>(f: fn(&[u8]) -> Vec<u8>) {
         }
     }
     assert!(out.len() == total, "output length differs");
-    kani::cover!(a >= 4, "two non-empty units framed");
-    kani::cover!(a == 2, "one non-empty unit framed");
-    kani::cover!(n >= 1 && a == 0, "only empty units -> whole-input fallback");
-    kani::cover!(n == 0 && L > 0, "no start code -> whole-input fallback");
-    kani::cover!(n >= 2 && a == 2, "an empty unit is skipped next to a framed one");
+    crate::vcover!(a >= 4, "two non-empty units framed");
+    crate::vcover!(a == 2, "one non-empty unit framed");
+    crate::vcover!(n >= 1 && a == 0, "only empty units -> whole-input fallback");
+    crate::vcover!(n == 0 && L > 0, "no start code -> whole-input fallback");
+    crate::vcover!(n >= 2 && a == 2, "an empty unit is skipped next to a framed one");
     core::mem::forget(out);
 }
 
@@ -192,7 +192,7 @@ pub fn c14_conv_empty() {
     let a = annexb_to_avcc(&[]);
     let b = hevc_annexb_to_hvcc(&[]);
     assert!(a.is_empty() && b.is_empty());
-    kani::cover!(true, "reached");
+    crate::vcover!(true, "reached");
 }
 
 // ---------------------------------------------------------------------------
@@ -225,11 +225,11 @@ fn adts_body<const L: usize>() {
         (Ok(_), None) => panic!("accepted a frame the reference rejects"),
         (Err(_), Some(_)) => panic!("rejected a frame the reference accepts"),
     }
-    kani::cover!(matches!(want, Some((7, _))), "accepted, unprotected");
-    kani::cover!(matches!(want, Some((9, _))), "accepted, CRC-protected");
-    kani::cover!(matches!(want, Some((h, f)) if f == h), "accepted with empty payload");
-    kani::cover!(matches!(want, Some((h, f)) if f > h), "accepted with payload");
-    kani::cover!(r.is_err() && L >= 7, "rejected >=7 bytes");
+    crate::vcover!(matches!(want, Some((7, _))), "accepted, unprotected");
+    crate::vcover!(matches!(want, Some((9, _))), "accepted, CRC-protected");
+    crate::vcover!(matches!(want, Some((h, f)) if f == h), "accepted with empty payload");
+    crate::vcover!(matches!(want, Some((h, f)) if f > h), "accepted with payload");
+    crate::vcover!(r.is_err() && L >= 7, "rejected >=7 bytes");
     core::mem::forget(r);
 }
 
